@@ -159,7 +159,7 @@ def items(rng, tier):
             c.force = "run.start"
             out.append(c)
             sid += 1
-            for _ in range(16):     # two random choices decide which branch is taken: repeated
+            for _ in range(48):     # two random choices decide which branch is taken (a few per cent per trial): repeated
                 c = Coll(sid, lid, rid, las, ras, "loser-ceased-first")
                 c.force = "run.aftererr"
                 out.append(c)
@@ -173,7 +173,7 @@ def sys_part(tier, rng, rep, replay):
     forced = [c for c in its if c.force]
     cov = sysrun.run_convs(PID, free, rep, extra_check=lambda c, e, o, r: c.check(r), par=8)
     # schedule points are process-wide: scenarios that arm one run alone
-    cov2 = sysrun.run_convs(PID, forced, rep, extra_check=lambda c, e, o, r: c.check(r), par=1, confirm=8)
+    cov2 = sysrun.run_convs(PID, forced, rep, extra_check=lambda c, e, o, r: c.check(r), par=1, confirm=8, procs=6)
     for k in ("evaluations", "distinct_nontrivial", "traces_validated_against_impl", "manager_histories_replayed",
               "manager_replay_divergences", "monitor_violations"):
         cov[k] = cov.get(k, 0) + cov2.get(k, 0)
